@@ -75,7 +75,7 @@ static Tok gen_scalar_tok(Rng &r, char t)
             if(r.chance(0.25) && s.size() >= 2) {
                 // concatenated strings: "abc"\ <newline> "def"
                 size_t cut = (size_t)r.range(1, (int64_t)s.size() - 1);
-                k.text = "\"" + esc_string(s.substr(0, cut), false) + "\"\\" + (r.chance(0.7) ? "\n  " : " ") + "\"" + esc_string(s.substr(cut), false) + "\"";
+                k.text = "\"" + esc_string(s.substr(0, cut), false) + "\"\\" + (r.chance(0.6) ? "\n  " : r.chance(0.6) ? " " : "") + "\"" + esc_string(s.substr(cut), false) + "\"";   // (also no blank at all behind the backslash)
                 k.tags.push_back("concatenated_string");
             } else k.text = "\"" + esc_string(s, false) + "\"";
             break; }
